@@ -39,7 +39,7 @@ func Run(cfg hx.Config) error {
 		return err
 	}
 	defer r.Close()
-	r.Rule = "archives: member lists from ten generator families (plain, implied directories, leaf links, usr-merge style links in directory position, link chains and cycles, hard links, repetition of every kind, adversarial names, soup, big), written with archive/tar in USTAR/PAX/GNU format and opened with the real tarfs.New; then a query battery (tables, Stat/Open/ReadDir on every key, derived, aliased and invalid paths, Glob patterns, Sub chains, WalkDir) answered by the real view and by the Lean model; plus the path functions on random byte strings. A line is non-trivial when the answer is not a plain not-exist/invalid error. Oracle cases compare the view with an independent extraction."
+	r.Rule = "archives: member lists from ten generator families (plain, implied directories, leaf links, usr-merge style links in directory position, link chains and cycles, hard links, repetition of every kind, adversarial names, soup, big), written with archive/tar in USTAR/PAX/GNU format, the first nine again with the harness's own tar writer (raw-*: pax path/linkpath/size/mtime records, global headers, GNU long names and links, old-GNU magic, base-256 numbers, ustar prefix, NUL typeflag, PAX 1.0 sparse members, entries of unknown typeflags, file-type bits in the mode field), and longchain (chains of up to 70 symbolic links ending in a file, directory, missing name or cycle); opened with the real tarfs.New; then a query battery (tables incl. header and segment sizes, Stat/Open/ReadDir/ReadFile through io/fs on every key, derived, aliased and invalid paths, ReadDir(n) sequences on directory handles, Glob patterns, Sub chains, WalkDir) and, on a third of the archives, a claircore.Layer script (Init with good and bad media types and digests, FS, Reader, Files, Close in every state) answered by the real code and by the Lean model; plus the path functions on random byte strings. A line is non-trivial when the answer is not a plain not-exist/invalid error. Oracle cases compare the view with an independent extraction, and check the ReadDir(n), Layer and Reader contracts directly."
 	x := &runner{r: r, rnd: hx.NewRand(cfg.Seed), cfg: cfg}
 
 	x.corpus()
